@@ -21,6 +21,7 @@ import (
 	"io"
 	"net"
 	"os"
+	"regexp"
 	"runtime"
 	"sort"
 	"strconv"
@@ -123,6 +124,7 @@ type cfg struct {
 	plans  []plan
 	fb     string
 	ch     string
+	shr    bool
 	script []byte
 }
 
@@ -141,7 +143,7 @@ func atoi(s string) int { n, _ := strconv.Atoi(s); return n }
 func parseCfg(op string) (cfg, error) {
 	m := kv(op)
 	c := cfg{mode: m["mode"], id: m["id"], ips: atoi(m["ips"]), scid: atoi(m["scid"]), dcid: atoi(m["dcid"]),
-		pnl1: atoi(m["pnl1"]), tok: m["tok"], udp: atoi(m["udp"]), fb: m["fb"], ch: m["ch"]}
+		pnl1: atoi(m["pnl1"]), tok: m["tok"], udp: atoi(m["udp"]), fb: m["fb"], ch: m["ch"], shr: m["shr"] == "1"}
 	var err error
 	if c.ipn, err = strconv.ParseUint(m["ipn"], 10, 64); err != nil {
 		return c, err
@@ -698,7 +700,17 @@ func (rn *runner) dial(c cfg) string {
 			}()
 		}
 		ctx, cancel := context.WithTimeout(context.Background(), timeout)
-		conn, derr := ut.Dial(ctx, e2e.ServerAddr, e2e.ClientTLSConfig(), &quic.Config{InitialPacketSize: uint16(c.ips)})
+		// The caller's Config: a fresh one per dial, or (shr=1) ONE long-lived *Config that every dial of the
+		// case goes through, whatever its spec — a spec-driven override (token store, …) must never leak into it.
+		userConf := &quic.Config{InitialPacketSize: uint16(c.ips)}
+		if c.shr {
+			if rn.shared == nil {
+				rn.shared = userConf
+			}
+			userConf = rn.shared
+			userConf.InitialPacketSize = uint16(c.ips)
+		}
+		conn, derr := ut.Dial(ctx, e2e.ServerAddr, e2e.ClientTLSConfig(), userConf)
 		cancel()
 		if conn != nil {
 			// Let the client send its Handshake flight (and drop its Initial keys) before closing: closing at the
@@ -777,8 +789,9 @@ func (rn *runner) dial(c cfg) string {
 // ---------------------------------------------------------------- generator
 
 type runner struct {
-	base      string // config part of the op line for this case
-	liveP int
+	base   string // config part of the op line for this case
+	liveP  int
+	shared *quic.Config // the caller's long-lived *Config, reused by every dial of the case that says shr=1
 }
 
 var ipnChoices = []uint64{0, 1, 2, 255, 300, 1 << 31, 1<<62 - 1, 1 << 62, 1<<64 - 1}
@@ -841,7 +854,10 @@ func genFlight(r *vh.Rand, pad int) string {
 
 func (rn *runner) genBase(r *vh.Rand) string {
 	rn.liveP = 35
-	kind := r.Pick(18, 40, 36, 6)
+	kind := r.Pick(18, 38, 30, 6, 8)
+	if kind == 4 {
+		return rn.genCapacitySweep(r)
+	}
 	if kind == 0 {
 		name := builtinNames[r.Intn(len(builtinNames))]
 		s, _ := quic.QUICID2Spec(builtins[name])
@@ -850,7 +866,7 @@ func (rn *runner) genBase(r *vh.Rand) string {
 			return ""
 		}
 		ips := []int{0, 0, 0, 1200, 1350, 1452}[r.Intn(6)]
-		return fmt.Sprintf("id=%s ips=%d %s ch=id", name, ips, d)
+		return fmt.Sprintf("id=%s ips=%d %s ch=id shr=%d", name, ips, d, r.Intn(2))
 	}
 	ips := []int{0, 0, 0, 1200, 1252, 1350, 1452}[r.Intn(7)]
 	// connection ID lengths 0..20 (DCID mostly valid for a server: 0 = library default, or >= 8)
@@ -966,9 +982,57 @@ func (rn *runner) genBase(r *vh.Rand) string {
 			}
 		}
 	}
-	return fmt.Sprintf("id=- ips=%d scid=%d dcid=%d ipn=%d pnl1=%d pnls=%s tok=%s udp=%d plans=%s fb=%s ch=%s+%d",
-		ips, scid, dcid, ipn, pnl1, pnlS, tok, udp, plans, fb, chBase, pad)
+	return fmt.Sprintf("id=- ips=%d scid=%d dcid=%d ipn=%d pnl1=%d pnls=%s tok=%s udp=%d plans=%s fb=%s ch=%s+%d shr=%d",
+		ips, scid, dcid, ipn, pnl1, pnlS, tok, udp, plans, fb, chBase, pad, r.Intn(2))
 }
+
+func vlen(v int) int {
+	switch {
+	case v < 64:
+		return 1
+	case v < 16384:
+		return 2
+	}
+	return 4
+}
+
+// genCapacitySweep: a CryptoLength within +-20 bytes of what ONE maximum-size Initial can carry (the budget
+// comparison in PackCoalescedPacket), with a ClientHello long enough to fill it and builders that add nothing.
+func (rn *runner) genCapacitySweep(r *vh.Rand) string {
+	rn.liveP = 30
+	ips := []int{0, 0, 1200, 1252, 1350, 1400}[r.Intn(6)]
+	maxSize := ips
+	if ips == 0 {
+		maxSize = 1280
+	}
+	scid := []int{0, 0, 3, 8, 20}[r.Intn(5)]
+	dcid := 8 + r.Intn(13)
+	pnl1 := []int{1, 2, 4}[r.Intn(3)]
+	tok, tokLen := "-", 0
+	switch r.Intn(4) {
+	case 0:
+		tokLen = 1 + r.Intn(70)
+		tok = "x:" + hex.EncodeToString(r.Bytes(tokLen))
+	case 1:
+		tokLen = []int{16, 63, 64, 70}[r.Intn(4)]
+		tok = fmt.Sprintf("p:00:%d", tokLen)
+	}
+	hdr := 1 + 4 + 1 + dcid + 1 + scid + pnl1 + 2 + vlen(tokLen) + tokLen
+	capacity := maxSize - 16 - hdr - (1 + 1 + 2) // one CRYPTO frame at offset 0 with a 2-byte length
+	c := capacity + int(r.Range(-20, 20))
+	fb := []string{"nil", "nil", "qf:", "qf:C0.0", "rf:0.0.1.1.0.0.0"}[r.Intn(5)]
+	plans := fmt.Sprintf("%d/0", c)
+	if r.Bool() {
+		plans += ",0/0"
+	}
+	chBase := []string{"ff", "c115", "c146"}[r.Intn(3)]
+	pad := []int{1500, 2200}[r.Intn(2)]
+	udp := []int{0, 0, 1357}[r.Intn(3)]
+	return fmt.Sprintf("id=- ips=%d scid=%d dcid=%d ipn=%d pnl1=%d pnls=- tok=%s udp=%d plans=%s fb=%s ch=%s+%d shr=%d",
+		ips, scid, dcid, r.Intn(2), pnl1, tok, udp, plans, fb, chBase, pad, r.Intn(2))
+}
+
+var tokRe = regexp.MustCompile(` tok=\S+`)
 
 func (rn *runner) GenOp(r *vh.Rand, i int) string {
 	if i == 0 || rn.base == "" {
@@ -991,7 +1055,17 @@ func (rn *runner) GenOp(r *vh.Rand, i int) string {
 			script[k] = b
 		}
 	}
-	return fmt.Sprintf("dial mode=%s %s script=%s", mode, rn.base, hex.EncodeToString(script))
+	base := rn.base
+	if i > 0 && strings.HasPrefix(base, "id=- ") && r.Chance(40) {
+		// another spec through the same caller Config: the token setting changes between the dials of a case
+		// (token spec, then a spec that specifies NO token, and the other way round)
+		if strings.Contains(base, " tok=- ") {
+			base = strings.Replace(base, " tok=- ", []string{" tok=p:00:70 ", " tok=p::16 ", " tok=x:a1b2c3d4 "}[r.Intn(3)], 1)
+		} else {
+			base = tokRe.ReplaceAllString(base, " tok=-")
+		}
+	}
+	return fmt.Sprintf("dial mode=%s %s script=%s", mode, base, hex.EncodeToString(script))
 }
 
 func (rn *runner) Exec(op string) string {
